@@ -224,6 +224,20 @@ def parseCfg : List String → Option (Cfg × List String)
 def finish {T : Type} (dump : Res T → String) (st : St T) : String :=
   String.intercalate " | " (st.vers.toList.map dump) ++ " || " ++ String.intercalate " " st.results.toList
 
+/-- `to_array()` of a stream: the first error item is the result -/
+def collect {α : Type} (f : α → String) (l : List (Res α)) : String :=
+  match l.find? (fun r => match r with | .error _ => true | .ok _ => false) with
+  | some (.error e) => showErr e
+  | _ => commas (l.filterMap fun r => match r with | .ok a => some (f a) | .error _ => none)
+
+/-- `map crun <cfg> wc|ds <k,k,..>`: `with_count(h, e)` / `distinct(h, e)` over the stream of keys -/
+def consumerRun (c : Cfg) (kind : String) (ks : List Int) : String :=
+  let items : List (Res Int) := ks.map .ok
+  match kind with
+  | "wc" => collect (fun kc => s!"{kc.1}:{kc.2}") (withCount c.hash c.eq empty items)
+  | "ds" => collect toString (distinct c.hash c.eq items)
+  | _ => "bad-op"
+
 end XrayDriver.MapEng
 
 namespace XrayDriver
@@ -239,6 +253,10 @@ def mapEngine (f : String) (args : List String) : String :=
     match runOps (sstep c) { vers := #[.ok empty], results := #[] } ops with
     | none => "bad-op"
     | some st => finish (dumpS c) st
+  | "crun", some (c, [kind, ks]) =>
+    match parseInts ks with
+    | none => "bad-op"
+    | some ks => consumerRun c kind ks
   | _, _ => "bad-op"
 
 end XrayDriver
